@@ -179,6 +179,16 @@ func (s *Sched) Park(point, name string, answers []string) int {
 }
 
 func (s *Sched) yield(point, name string) {
+	if s.ThreadOf != nil {
+		// name the goroutine at its first yield point, even if it does not park there
+		id := goid()
+		s.mu.Lock()
+		_, known := s.threads[id]
+		s.mu.Unlock()
+		if !known && id != s.self {
+			s.threadName(point, name, id)
+		}
+	}
 	if s.ParkPoints != nil && !s.ParkPoints[point] {
 		return
 	}
